@@ -93,6 +93,8 @@ struct Script<'a, 'b> {
     served_sync: usize,
     served_batch: usize,
     batch_counter: u64,
+    /// batches referenced by some block but not delivered to the node by the script (yet)
+    unserved: Vec<Digest>,
     /// Certification discipline (soundness of the generator): the puppets hold more than f stake, so
     /// the script only lets them certify what an honest majority could certify - one block per
     /// round, safe extensions by the round's leader, in increasing round order, and always a
@@ -504,6 +506,15 @@ impl<'a, 'b> Script<'a, 'b> {
         let mut payload = Vec::new();
         let mut later = Vec::new();
         for _ in 0..k {
+            // sometimes reference a batch again that an earlier block referenced and that the node
+            // still lacks (a re-proposed digest after a view change)
+            let reusable: Vec<Digest> = self.unserved.iter().filter(|d| !payload.contains(*d)).cloned().collect();
+            if !reusable.is_empty() && self.t.chance(1, 2) {
+                let d = self.t.pick(&reusable).clone();
+                payload.push(d);
+                self.stat("missing-batch-referenced-again");
+                continue;
+            }
             self.batch_counter += 1;
             let ntx = 1 + self.t.below(3);
             let txs: Vec<Vec<u8>> = (0..ntx).map(|j| vec![self.batch_counter as u8, j as u8, 7, 7, 7]).collect();
@@ -512,7 +523,7 @@ impl<'a, 'b> Script<'a, 'b> {
             self.batches.insert(d.clone(), bytes.clone());
             payload.push(d.clone());
             // 0: before the proposal, 1: shortly after, 2: only on request, 3: never
-            let mode = self.t.weighted(&[5, 2, 2, 1]) as u8;
+            let mode = self.t.weighted(&[4, 2, 2, 2]) as u8;
             match mode {
                 0 => {
                     let from = *self.t.pick(&self.puppets.clone());
@@ -521,6 +532,9 @@ impl<'a, 'b> Script<'a, 'b> {
                     self.stat("batch-before");
                 }
                 m => {
+                    if m >= 2 {
+                        self.unserved.push(d.clone());
+                    }
                     later.push((d, m));
                     self.stat(&format!("batch-mode-{}", m));
                 }
@@ -886,6 +900,7 @@ impl<'a, 'b> Script<'a, 'b> {
                 if let (0, Some(bytes)) = (mode, self.batches.get(&d).cloned()) {
                     let sut = self.sut;
                     let _ = self.conns.mempool(puppet, sut, bytes).await;
+                    self.unserved.retain(|x| *x != d);
                     self.stat("batch-served");
                 } else {
                     self.stat("batch-request-ignored");
@@ -1398,6 +1413,7 @@ pub fn run_solo(case: &Case, profile: Profile, knobs: &Knobs) -> SoloRun {
             served_sync: 0,
             served_batch: 0,
             batch_counter: 0,
+            unserved: Vec::new(),
             certified: HashSet::new(),
             cert_max: 0,
             anchor: None,
